@@ -30,10 +30,16 @@ func init() {
 			{ID: "R03.5", Template: "T-TAINT", Text: "pc advances only by constants and decoder-returned sizes", Min: 2},
 			{ID: "R03.6", Template: "T-MUSTPASS", Text: "every function body reaches the validator", Min: 1},
 			{ID: "R03.7", Template: "T-CONSULT", Text: "if-without-else: parameter and result types are compared", Min: 1},
+			{ID: "R03.9", Template: "T-MUSTPASS", Text: "all function type indexes are range-checked before any body is validated (genuine defect found and fixed)", Min: 1},
+			{ID: "R03.10", Template: "T-MUSTPASS", Text: "compiler frontend arms consume their immediates before the unreachable early exit", Min: 50},
+			{ID: "R03.11", Template: "T-WIDTH", Text: "interpreter drop ranges are computed in slot units, not value counts", Min: 1},
 			{ID: "R03.8", Template: "T-CONSULT", Text: "decoder reads cannot be empty reads at the end of the input (genuine defect found and fixed: trailing custom section with an empty payload)", Min: 2},
 		},
 		Run: runC03,
 		Controls: []core.Control{
+			{Name: "type-index-checked-lazily", File: "internal/wasm/module.go", Old: "\t\t}\n\t}\n\tfor idx := range m.FunctionSection {\n\t\tc := &m.CodeSection[idx]", New: "\t\t}\n\t\tc := &m.CodeSection[idx]", Rule: "R03.9", Substr: "type indexes"},
+			{Name: "lane-immediate-after-unreachable-exit", File: "internal/engine/wazevo/frontend/lower.go", Old: "\t\t\t_, offset := c.readMemArg()\n\t\t\tstate.pc++\n\t\t\tif state.unreachable {\n\t\t\t\tbreak\n\t\t\t}\n\t\t\tlaneIndex := c.wasmFunctionBody[state.pc]\n\t\t\tvar storeOp ssa.Opcode", New: "\t\t\t_, offset := c.readMemArg()\n\t\t\tif state.unreachable {\n\t\t\t\tbreak\n\t\t\t}\n\t\t\tstate.pc++\n\t\t\tlaneIndex := c.wasmFunctionBody[state.pc]\n\t\t\tvar storeOp ssa.Opcode", Rule: "R03.10", Substr: "Store8Lane"},
+			{Name: "drop-range-counts-values", File: "internal/engine/interpreter/compiler.go", Old: "\t\tstart = frame.blockType.ParamNumInUint64\n", New: "\t\tstart = len(frame.blockType.Params)\n", Rule: "R03.11", Substr: "getFrameDropRange"},
 			{Name: "custom-section-unguarded-read", File: "internal/wasm/binary/custom.go", Old: "\tif len(buf) > 0 { // bytes.Reader.Read returns io.EOF at the end of the input even for an empty buffer.\n\t\t_, err = r.Read(buf)\n\t}\n", New: "\t_, err = r.Read(buf)\n", Rule: "R03.8", Substr: "decodeCustomSection"},
 			{Name: "wazevo-arm-removed", File: "internal/engine/wazevo/frontend/lower.go", Old: "\tcase wasm.OpcodeNop:", New: "\tcase 0x06: // was nop", Rule: "R03.1", Substr: "wazevo"},
 			{Name: "interp-vec-arm-removed", File: "internal/engine/interpreter/compiler.go", Old: "\t\tcase wasm.OpcodeVecV128Not:", New: "\t\tcase 0x9a: // disabled", Rule: "R03.1", Substr: "interpreter"},
@@ -41,7 +47,7 @@ func init() {
 			{Name: "element-global-type-unchecked", File: "internal/wasm/table.go", Old: "\t\t\t\tif imp.DescGlobal.ValType != refType {\n\t\t\t\t\treturn fmt.Errorf(\"%s[%d].init[%d] (global.get %d): import[%d].global.ValType != %s\",\n\t\t\t\t\t\tSectionIDName(SectionIDElement), sectionIdx, initIdx, idx, i, RefTypeName(refType))\n\t\t\t\t}\n", New: "\t\t\t\t_ = refType\n", Rule: "R03.2", Substr: "verifyImportGlobalRef"},
 			{Name: "decoder-unbounded-make", File: "internal/wasm/binary/section.go", Old: "result := make([]wasm.FunctionType, 0, boundedSize(r, uint64(vs)))", New: "result := make([]wasm.FunctionType, 0, vs)", Rule: "R03.3", Substr: "decodeTypeSection"},
 			{Name: "brtable-skips-by-count", File: "internal/engine/interpreter/compiler.go", Old: "\t\t\tfor i := uint32(0); i <= numTargets; i++ { // inclusive as we also need to read the index of default target.\n\t\t\t\t_, n, err := leb128.DecodeUint32(r)\n\t\t\t\tif err != nil {\n\t\t\t\t\treturn fmt.Errorf(\"error reading target %d in br_table: %w\", i, err)\n\t\t\t\t}\n\t\t\t\tc.pc += n\n\t\t\t}", New: "\t\t\tc.pc += uint64(numTargets) + 1", Rule: "R03.5", Substr: "interpreter"},
-			{Name: "validation-skipped-for-duplicates", File: "internal/wasm/module.go", Old: "\tfor idx, typeIndex := range m.FunctionSection {\n", New: "\tseenBodies := map[string]bool{}\n\tfor idx, typeIndex := range m.FunctionSection {\n\t\tif k := string(m.CodeSection[idx].Body); seenBodies[k] {\n\t\t\tcontinue\n\t\t} else {\n\t\t\tseenBodies[k] = true\n\t\t}\n", Rule: "R03.6", Substr: "validat"},
+			{Name: "validation-skipped-for-duplicates", File: "internal/wasm/module.go", Old: "\tfor idx := range m.FunctionSection {\n", New: "\tseenBodies := map[string]bool{}\n\tfor idx := range m.FunctionSection {\n\t\tif k := string(m.CodeSection[idx].Body); seenBodies[k] {\n\t\t\tcontinue\n\t\t} else {\n\t\t\tseenBodies[k] = true\n\t\t}\n", Rule: "R03.6", Substr: "validat"},
 		},
 		Configs: []core.BuildCfg{{GOOS: "linux", GOARCH: "arm64"}},
 	})
@@ -55,6 +61,9 @@ func runC03(c *core.Ctx) {
 	checkEveryFunctionValidated(c)
 	checkIfWithoutElse(c)
 	checkEmptyReads(c)
+	checkTypeIndexPrePass(c)
+	checkImmediatesBeforeUnreachable(c)
+	checkDropRangeUnits(c)
 }
 
 // ---- R03.1 / R01.1
@@ -589,5 +598,195 @@ func checkEmptyReads(c *core.Ctx) {
 	})
 	if n == 0 {
 		c.Discharge("R03.8", "the decoder uses io.ReadFull only", 0, "no direct Read calls")
+	}
+}
+
+// ---- R03.9 every function's type index is range-checked before any body is validated ----
+
+func checkTypeIndexPrePass(c *core.Ctx) {
+	p := c.Pkg("internal/wasm")
+	info := p.TypesInfo
+	var vf *ast.FuncDecl
+	core.AllFuncDecls(p, func(fd *ast.FuncDecl) {
+		if fd.Name.Name == "validateFunctions" {
+			vf = fd
+		}
+	})
+	if vf == nil {
+		c.Undecided("R03.9", "validateFunctions", 0, "not found")
+		return
+	}
+	// loops over the function section, in order
+	type loop struct {
+		rs        *ast.RangeStmt
+		checks    bool // compares an element with the type count and returns an error
+		validates bool // calls the per-function validator
+	}
+	var loops []loop
+	for _, st := range vf.Body.List {
+		rs, ok := st.(*ast.RangeStmt)
+		if !ok || !strings.HasSuffix(core.ExprStr(rs.X), "FunctionSection") {
+			continue
+		}
+		l := loop{rs: rs}
+		ast.Inspect(rs.Body, func(x ast.Node) bool {
+			switch y := x.(type) {
+			case *ast.IfStmt:
+				if be, ok := y.Cond.(*ast.BinaryExpr); ok && (be.Op == token.GEQ || be.Op == token.GTR) {
+					ret := false
+					ast.Inspect(y.Body, func(z ast.Node) bool {
+						if _, ok := z.(*ast.ReturnStmt); ok {
+							ret = true
+						}
+						return true
+					})
+					if ret && strings.Contains(strings.ToLower(core.ExprStr(be.Y)), "type") {
+						l.checks = true
+					}
+				}
+			case *ast.CallExpr:
+				if f := core.Callee(info, y); f != nil && f.Name() == "validateFunction" {
+					l.validates = true
+				}
+			}
+			return true
+		})
+		loops = append(loops, l)
+	}
+	ok := false
+	for _, l := range loops {
+		if l.validates {
+			break
+		}
+		if l.checks {
+			ok = true
+		}
+	}
+	pos := vf.Pos()
+	if len(loops) > 0 {
+		pos = loops[0].rs.Pos()
+	}
+	c.Check(ok, "R03.9", "type indexes of all functions are range-checked before the first body is validated", pos,
+		"a loop over the function section that only range-checks precedes the loop that validates bodies",
+		"the type index of a function is range-checked in the same loop iteration that validates its body: validating `call N` in an earlier function indexes the type section with function N's unchecked type index and CompileModule panics (index out of range) instead of returning an error")
+}
+
+// ---- R03.10 immediates are consumed before the unreachable early exit ----
+
+func checkImmediatesBeforeUnreachable(c *core.Ctx) {
+	p := c.Pkg("internal/engine/wazevo/frontend")
+	if p == nil {
+		return
+	}
+	info := p.TypesInfo
+	d := dispatcherOf(p)
+	if d == nil {
+		c.Undecided("R03.10", "frontend dispatcher", 0, "not found")
+		return
+	}
+	advances := func(n ast.Node) (bool, token.Pos) {
+		hit, pos := false, token.NoPos
+		ast.Inspect(n, func(x ast.Node) bool {
+			if hit {
+				return false
+			}
+			switch y := x.(type) {
+			case *ast.IncDecStmt:
+				if strings.HasSuffix(core.ExprStr(y.X), ".pc") {
+					hit, pos = true, y.Pos()
+				}
+			case *ast.AssignStmt:
+				if (y.Tok == token.ADD_ASSIGN) && len(y.Lhs) == 1 && strings.HasSuffix(core.ExprStr(y.Lhs[0]), ".pc") {
+					hit, pos = true, y.Pos()
+				}
+			case *ast.CallExpr:
+				if f := core.Callee(info, y); f != nil && strings.HasPrefix(f.Name(), "read") && core.RecvNameOf(f) == "Compiler" {
+					hit, pos = true, y.Pos()
+				}
+			}
+			return true
+		})
+		return hit, pos
+	}
+	isUnreachableExit := func(s ast.Stmt) bool {
+		is, ok := s.(*ast.IfStmt)
+		if !ok || !strings.HasSuffix(core.ExprStr(is.Cond), ".unreachable") || len(is.Body.List) == 0 {
+			return false
+		}
+		br, ok := is.Body.List[len(is.Body.List)-1].(*ast.BranchStmt)
+		return ok && br.Tok == token.BREAK
+	}
+	n := 0
+	ast.Inspect(d.Body, func(x ast.Node) bool {
+		cc, ok := x.(*ast.CaseClause)
+		if !ok || len(cc.List) == 0 {
+			return true
+		}
+		if nm := constNameOf(info, cc.List[0]); nm == "" || opClass(nm) == "" {
+			return true
+		}
+		exitAt := -1
+		for i, s := range cc.Body {
+			if isUnreachableExit(s) {
+				exitAt = i
+				break
+			}
+		}
+		if exitAt < 0 {
+			return true
+		}
+		n++
+		var bad []string
+		for _, s := range cc.Body[exitAt+1:] {
+			// nested prefix dispatch (the vector / atomic / misc switches) is handled at its own arms
+			if _, isSw := s.(*ast.SwitchStmt); isSw {
+				continue
+			}
+			if hit, pos := advances(s); hit {
+				bad = append(bad, c.Pos(pos))
+			}
+		}
+		c.Check(len(bad) == 0, "R03.10", "arm "+constNameOf(info, cc.List[0])+" consumes its immediates before the unreachable early exit", cc.Pos(),
+			"no pc advance after the exit", "the program counter is advanced / an immediate is read at "+strings.Join(bad, ", ")+" after the `if unreachable { break }` exit: in dead code the immediate is not skipped and its bytes are decoded as opcodes – a valid module makes the compiler panic (or mis-compile) while the interpreter accepts it")
+		return true
+	})
+	if n < 50 {
+		c.Undecided("R03.10", "frontend arms with an unreachable exit", d.Pos(), fmt.Sprintf("only %d found", n))
+	}
+}
+
+// ---- R03.11 the interpreter's drop ranges are computed in slot units ----
+
+func checkDropRangeUnits(c *core.Ctx) {
+	p := c.Pkg("internal/engine/interpreter")
+	if p == nil {
+		return
+	}
+	info := p.TypesInfo
+	n := 0
+	core.AllFuncDecls(p, func(fd *ast.FuncDecl) {
+		if fd.Type.Results == nil || len(fd.Type.Results.List) != 1 {
+			return
+		}
+		if rt := info.Types[fd.Type.Results.List[0].Type].Type; rt == nil || !strings.HasSuffix(rt.String(), "inclusiveRange") {
+			return
+		}
+		n++
+		var bad []string
+		ast.Inspect(fd.Body, func(x ast.Node) bool {
+			call, ok := x.(*ast.CallExpr)
+			if !ok || !core.IsBuiltin(info, call, "len") || len(call.Args) != 1 {
+				return true
+			}
+			if se, ok := ast.Unparen(call.Args[0]).(*ast.SelectorExpr); ok && (se.Sel.Name == "Params" || se.Sel.Name == "Results") {
+				bad = append(bad, core.ExprStr(call)+" at "+c.Pos(call.Pos()))
+			}
+			return true
+		})
+		c.Check(len(bad) == 0, "R03.11", "drop range in "+core.FuncName(p, fd)+" is computed in 64-bit slot units", fd.Pos(), "uses the …NumInUint64 counts only",
+			strings.Join(bad, "; ")+": a count of values is used where stack slots are meant; they differ for v128 (2 slots), so a branch carrying a v128 drops half the vector and the interpreter fails with a Go runtime error on a valid module")
+	})
+	if n == 0 {
+		c.Undecided("R03.11", "drop-range functions", 0, "no function returning inclusiveRange found")
 	}
 }
